@@ -298,6 +298,22 @@ def gen_eq(tier, rng, factidx):
                             rt = "cnl::_impl::rep_of_t<decltype(std::declval<%s>() >> constant<%d>{})>" % (EL, k)
                             obs.append(kern.Ob("%s/eq/%s/%d%s>>%d" % (cfg, fam, L, "s" if Ls else "u", k), rt, [(ra, "a")],
                                                "return unwrap(wrap<%s>(a) >> constant<%d>{});" % (EL, k), ["using RR = %s; return (RR)(a >> %d);" % (rt, k)], pre=pre, cfg=cfg, may_reject=True, meta=dict(op="shr")))
+    # scale<-k> of an elastic_integer - every elastic_scaled_integer conversion to a coarser exponent or to an integer goes
+    # through it: the quotient by 2^k, truncated, for shifts at and around the rep boundaries (seeded change M-C05-8 built
+    # the divisor 2^31 in a 32-bit signed rep: INT_MIN, so the quotient changed sign)
+    for cfg in ("clang",):
+        for fam in ("i8", "int"):
+            for (L, k) in [(40, 31), (40, 30), (40, 32), (33, 31), (63, 31), (63, 33), (63, 62), (20, 15), (20, 16), (20, 7), (12, 7), (12, 8)]:
+                for Ls in (True, False):
+                    EL = ename(L, Ls, fam)
+                    ra = "cnl::_impl::rep_of_t<%s>" % EL
+                    A = erange(L, Ls)
+                    pre = ["a >= %s" % common.lit(A[0]), "a <= %s" % common.lit(A[1])]
+                    rt = "cnl::_impl::rep_of_t<decltype(cnl::_impl::scale<-%d>(std::declval<%s>()))>" % (k, EL)
+                    W = "long long" if Ls else "unsigned long long"
+                    obs.append(kern.Ob("%s/eq/%s/%d%s/scale-%d" % (cfg, fam, L, "s" if Ls else "u", k), rt, [(ra, "a")],
+                                       "return unwrap(cnl::_impl::scale<-%d>(wrap<%s>(a)));" % (k, EL), ["using RR = %s; return (RR)((%s)a / ((%s)1 << %d));" % (rt, W, W, k)],
+                                       pre=pre, cfg=cfg, meta=dict(op="scale", anchor="include/cnl/_impl/elastic_integer/scale.h (negative shift)")))
     return obs
 
 
